@@ -47,9 +47,9 @@ CHECKS = {
             "Histories of 1-5 replier registrations and departures interleaved with traffic and back-pressure (also on rejected repliers' sinks): requests never alternate between repliers, a rejected replier gets exactly one REPLIER_ALREADY_BOUND frame, flushed, then close, and never a request; a replier registering with no live rival is bound and served.",
             "A departed/failed replier counts as gone once the router has had a parked poll since; N-engine smoke for the client side is not built yet.",
             "DESIGN.md §5 C10"),
-    "C11": ("exploration", "R", "deterministic simulation: seeded hostile frame sequences fed to the real request/reply router",
-            "Requestors and repliers additionally send every other frame kind mid-stream (Ok, BatchMessage, Error, Register*, frame-limit requests); the router must not panic or spin and every non-hostile peer's traffic must still satisfy the C02 model. The stream-open half of the property (Ok/Error answer, role mismatch) needs the N-engine and is not covered yet.",
-            "R part only: frames arrive decoded; first-frame handling in server.rs is not exercised by this check yet.",
+    "C11": ("exploration", "R+N", "deterministic simulation: seeded hostile frame sequences fed to the real request/reply router",
+            "Requestors and repliers additionally send every other frame kind mid-stream (Ok, BatchMessage, Error, Register*, frame-limit requests); the router must not panic or spin and every non-hostile peer's traffic must still satisfy the C02 model. N part: raw peers open streams on the real server with every kind of first frame, on fresh topics and on topics already used in either pattern (role/kind mismatch), send every frame kind after a valid registration including requests that exceed the frame limit only after the routing tag is added; every stream told Ok gets a role probe (served, or refused with an error frame; never abandoned), every registration must be answered, and library clients must still complete round trips on the same and on other topics.",
+            "A non-registration first frame closed without an answer is recorded, not alarmed on; a peer that itself sent wrong-kind frames may be dropped.",
             "DESIGN.md §5 C11"),
     "C12": ("fault_enumeration", "N", "deterministic simulation with fault injection: connection close hook, partitions held for an exact number of failed attempts, server restarts, repeated beyond the retry budget",
             "A victim stream of each kind (publisher, subscriber, requestor, replier; real library code) carries continuous traffic with a helper counterpart while outages are injected: the H1 close hook, a partition that the harness heals exactly when attempt k+1 is announced (k = 0..max_attempts+1), a server restart (nothing survives). Attempts must be numbered from 1 after every loss the client reports; an outage within the budget must end in a stable recovery after which newly started traffic is delivered/answered; an outage that exhausts the budget must surface as too-many-retries instead of hanging; more outages than max_attempts are survived when each stays within the budget.",
